@@ -55,6 +55,12 @@ func setupPrefix(args ...string) (handler.Handler6, error) {
 		return nil, fmt.Errorf("Invalid pool subnet: %v", err)
 	}
 
+	if prefix.IP.To4() != nil {
+		// An IPv4 (or IPv4-mapped) pool has a 4-byte base address; the 128-bit
+		// arithmetic of the allocator panics on it with the first hinted request
+		return nil, fmt.Errorf("Invalid pool subnet: %s is not an IPv6 prefix", args[0])
+	}
+
 	allocSize, err := strconv.Atoi(args[1])
 	if err != nil || allocSize > 128 || allocSize < 0 {
 		return nil, fmt.Errorf("Invalid prefix length: %v", err)
